@@ -843,7 +843,7 @@ class WalkMapper(RecursiveMapper):
             return
 
         for _bits, coeff in expr.data.items():
-            self.rec(coeff)
+            self.rec(coeff, *args, **kwargs)
 
         self.post_visit(expr, *args, **kwargs)
 
@@ -915,7 +915,7 @@ class WalkMapper(RecursiveMapper):
     map_max = map_sum
 
     def map_substitution(self, expr, *args, **kwargs):
-        if not self.visit(expr):
+        if not self.visit(expr, *args, **kwargs):
             return
 
         self.rec(expr.child, *args, **kwargs)
@@ -936,12 +936,11 @@ class WalkMapper(RecursiveMapper):
         if not self.visit(expr, *args, **kwargs):
             return
 
-        if expr.start is not None:
-            self.rec(expr.start, *args, **kwargs)
-        if expr.stop is not None:
-            self.rec(expr.stop, *args, **kwargs)
-        if expr.step is not None:
-            self.rec(expr.step, *args, **kwargs)
+        # Walk the children themselves: the start/stop/step accessors report the
+        # only child of a one-element slice as both start and stop.
+        for child in expr.children:
+            if child is not None:
+                self.rec(child, *args, **kwargs)
 
         self.post_visit(expr, *args, **kwargs)
 
